@@ -103,6 +103,10 @@ def scenario(seed, sid, n_steps=30, p_fault=0.35, restart=False, async_p=0.15, t
             steps.append({"op": "close", "mid": "1.1"})      # streams repeat CLOSED books
         if rnd.random() < 0.3:
             steps += [{"op": "book", "mid": "1.1", "k": 99}, {"op": "close", "mid": "1.1"}]   # data again, then closed again
+        if rnd.random() < 0.3:
+            # a bet of an earlier incarnation of strategy A on the market that has just closed (the framework still holds
+            # the market): the order stream reports it and it is adopted into that market
+            steps += [{"op": "foreign", "mid": "1.1", "sel": 11, "known": True}, {"op": "snap"}, {"op": "proc", "i": -1}, {"op": "snap"}, {"op": "proc", "i": -1}]
         if rnd.random() < 0.5:
             # recorder mode: the closure worker has marked the market cleared, then raw dict updates arrive for it
             # (prices only / a definition), then it closes again through a raw CLOSED definition
